@@ -97,6 +97,24 @@ class Tgt:
         self.log.append('probe2')
         return 'k'
 
+    # (twins compare equal: an expression may hand the target itself back, `T.h.echo(T)`)
+    def __eq__(self, other):
+        return type(other) is Tgt and {k: v for k, v in self.__dict__.items() if k != 'log'} == \
+            {k: v for k, v in other.__dict__.items() if k != 'log'}
+
+    def __hash__(self):
+        return hash(('Tgt', self.__dict__.get('n')))
+
+    # (as the right operand of an arithmetic step - `T.n + T` - the target answers through the reflected methods)
+    def __radd__(self, other):
+        return ('radd', other)
+
+    def __rmul__(self, other):
+        return ('rmul', other)
+
+    def __rsub__(self, other):
+        return ('rsub', other)
+
     def __repr__(self):
         return 'Tgt(%s)' % ', '.join('%s=%r' % (k, v) for k, v in sorted(self.__dict__.items()) if k != 'log')
 
@@ -151,6 +169,10 @@ class Sub:           # nested T expression
     def kind(self): return 'spec' if self.wrap else 'nestedT'
 
 
+class Root:          # the bare T as an argument: stands for the ORIGINAL target, wherever in the expression it is used
+    kind = 'bareT'
+
+
 class Cont:          # container literal with argument leaves
     def __init__(self, typ, parts): self.typ, self.parts = typ, parts
     kind = 'container'
@@ -172,6 +194,8 @@ _BUILT_SUBS = {}     # id(Sub node) -> built object, for the duration of one bui
 def build_arg(a):
     if isinstance(a, Lit):
         return a.v
+    if isinstance(a, Root):
+        return T
     if isinstance(a, Sub):
         if id(a) in _BUILT_SUBS:
             return _BUILT_SUBS[id(a)]
@@ -218,6 +242,8 @@ class RefFail(Exception):
 def ref_arg(a, target):
     if isinstance(a, Lit):
         return a.v
+    if isinstance(a, Root):
+        return target
     if isinstance(a, Sub):
         return ref_eval(a.expr, target)          # against the ORIGINAL target
     if a.typ is dict:
@@ -274,6 +300,8 @@ _EARLIER_SUBS = []
 def gen_arg_for(rng, kind, cur, depth, tgt):
     """an argument that has a fair chance of being valid for cur"""
     r = rng.random()
+    if r > 0.97:
+        return Root()
     if depth < 2 and r < 0.22:
         if _EARLIER_SUBS and rng.random() < 0.35:
             return rng.choice(_EARLIER_SUBS)          # the very same nested T as an earlier step of this expression
@@ -324,6 +352,10 @@ def gen_call(rng, cur, depth, tgt):
 
 def gen_call_arg(rng, depth, tgt):
     r = rng.random()
+    if r > 0.95:
+        return Root()
+    if r > 0.9:
+        return Cont(rng.choice([list, dict]), [])          # an EMPTY container literal (rebuilt per evaluation like any other)
     if r < 0.3 and depth < 2:
         return gen_sub(rng, depth + 1, tgt, wrap=rng.random() < 0.3)
     if r < 0.4:
@@ -728,6 +760,69 @@ def systematic(col, rng):
         check_expr(col, e, build2, 'handwritten')
 
 
+def _scribble(v, seen=None):
+    """a caller that modifies, in place, every container of a result it was given"""
+    seen = set() if seen is None else seen
+    if id(v) in seen:
+        return
+    seen.add(id(v))
+    if type(v) is list:
+        for x in v:
+            _scribble(x, seen)
+        v.append('scribbled')
+    elif type(v) is dict:
+        for x in list(v.values()):
+            _scribble(x, seen)
+        v['scribbled'] = True
+    elif type(v) is set:
+        v.add('scribbled')
+    elif type(v) is tuple:
+        for x in v:
+            _scribble(x, seen)
+
+
+def literal_arguments_are_per_evaluation(col):
+    """a container literal among the arguments of a recorded call is, in direct Python, a fresh object at every evaluation:
+    one T object evaluated three times, on fresh targets, with a caller that scribbles over each result in between"""
+    def build():
+        return Tgt({'a': {'k': [1, 2]}, 'b': [10, 20, 30], 'c': 'abc', 'd': (1, 2), 'e': None, 'h': Helper(5), 'n': 1, 'z': 0})
+    echo = lambda args, kwargs=(): Expr('h', [('attr', 'echo'), ('call', (list(args), list(kwargs)))])
+    cases = [
+        ('empty-list', echo([Cont(list, [])])), ('empty-dict', echo([Cont(dict, [])])),
+        ('empty-set', echo([Cont(set, [])])), ('two-empties', echo([Cont(list, []), Cont(dict, [])])),
+        ('nested-empty', echo([Cont(list, [Cont(list, []), Cont(dict, [])])])), ('tuple-of-empties', echo([Cont(tuple, [Cont(list, [])])])),
+        ('empty-as-keyword', echo([], [('kw', Cont(list, []))])), ('non-empty', echo([Cont(list, [Lit(1), Sub(Expr('n'))])])),
+        ('dict-with-empty-values', echo([Cont(dict, [('x', Cont(list, [])), ('y', Lit(0))])])),
+        ('get-default-empty-list', Expr('a', [('attr', 'get'), ('call', ([Lit('zz'), Cont(list, [])], []))])),
+        ('get-default-empty-dict', Expr('a', [('attr', 'get'), ('call', ([Lit('zz'), Cont(dict, [])], []))])),
+        ('setdefault-then-append', Expr('a', [('attr', 'setdefault'), ('call', ([Sub(Expr('c')), Cont(list, [])], [])),
+                                              ('attr', 'append'), ('call', ([Sub(Expr('n'))], []))])),
+        ('list-plus-empty', Expr('b', [('bin', ('+', Cont(list, [])))])),
+        ('index-then-plus-literal', Expr('a', [('item', Lit('k')), ('bin', ('+', Cont(list, [Cont(list, [])])))])),
+    ]
+    for name, e in cases:
+        expr = build_t(e)
+        for round_ in range(3):
+            t_glom, t_ref = build(), build()
+            try:
+                want = ('ok', ref_eval(e, t_ref))
+            except RefFail as rf:
+                want = ('fail', rf)
+            got = call(G, t_glom, expr)
+            col.count('glom_evaluations')
+            col.count('literal_argument_evaluations')
+            col.case(('literal-args', name, round_), True)
+            ok = got.ok and want[0] == 'ok' and same_value(got.value, want[1]) and same_value(t_glom, t_ref)
+            if not ok:
+                col.violation('C02/literal-argument-not-rebuilt-per-evaluation:' + name,
+                              'evaluation %d of %s: glom gave %s (target now %s); the same operations in Python give %s (target %s)'
+                              % (round_ + 1, repr(expr), short(got, 200), short(t_glom, 200),
+                                 short(want[1] if want[0] == 'ok' else want[1].exc, 200), short(t_ref, 200)), {'expr': repr(expr)})
+                break
+            _scribble(got.value)
+            _scribble(t_glom.__dict__['a'])
+
+
 def run(ctx):
     col, rng = ctx.col, ctx.rng
     col.require('glom_evaluations', 500)
@@ -736,6 +831,7 @@ def run(ctx):
     col.require('many_target_evaluations_with_distinct_expected_values', 100)
     if ctx.shard == 0:
         systematic(col, rng)
+        literal_arguments_are_per_evaluation(col)
     for i in range(ctx.n(15000, 80000)):
         build = target_recipe(rng)
         e = gen_expr(rng, build, want_fail=rng.random() < 0.4)
